@@ -1323,14 +1323,14 @@ class Pregex():
         :raises CannotBeRepeatedException: Parameter ``n`` has a value of greater \
             than one, while this instance represents a non-repeatable pattern.
         '''
-        if not self._is_repeatable():
-            raise _ex.CannotBeRepeatedException(self)
         if not isinstance(n, int) or isinstance(n, bool):
             message = "Provided argument \"n\" is not an integer."
             raise _ex.InvalidArgumentTypeException(message)
         if n < 0:
             message = "Using multiplication operator with a negative integer is not allowed."
             raise _ex.InvalidArgumentValueException(message)
+        if n > 1 and not self._is_repeatable():
+            raise _ex.CannotBeRepeatedException(self)
         if self._get_type() == _Type.Empty:
             return self
         return __class__(str(self.exactly(n)), escape=False)
@@ -1349,14 +1349,14 @@ class Pregex():
         :raises CannotBeRepeatedException: Parameter ``n`` has a value of greater \
             than one, while this instance represents a non-repeatable pattern.
         '''
-        if not self._is_repeatable():
-            raise _ex.CannotBeRepeatedException(self)
         if not isinstance(n, int) or isinstance(n, bool):
             message = "Provided argument \"n\" is not an integer."
             raise _ex.InvalidArgumentTypeException(message)
         if n < 0:
             message = "Using multiplication operator with a negative integer is not allowed."
             raise _ex.InvalidArgumentValueException(message)
+        if n > 1 and not self._is_repeatable():
+            raise _ex.CannotBeRepeatedException(self)
         if self._get_type() == _Type.Empty:
             return self
         return __class__(str(self.exactly(n)), escape=False)
